@@ -29,7 +29,9 @@ static std::string check_population(solver* s, const char* phase) {
         if (ci == i) { snprintf(buf, sizeof buf, "coupling-designates-own-cell: node %u of cell at index %zu (phase %s)", n.node_id_, i, phase); return buf; }
         if (ni >= L[ci]->node_lst_.size() || !L[ci]->node_lst_[ni].is_used_) { snprintf(buf, sizeof buf, "coupling-designates-dead-or-nonexistent-node: node %u of cell index %zu -> node %u of cell index %u (phase %s)", n.node_id_, i, ni, ci, phase); return buf; }
         // the partner must be the node the contact phase meant: both cells epithelial and within the adhesion cut-off
-        if (L[ci]->get_cell_type_id() != 0 || L[i]->get_cell_type_id() != 0) { snprintf(buf, sizeof buf, "coupling-between-non-epithelial-cells: index %zu -> %u (phase %s)", i, ci, phase); return buf; } }
+        if (L[ci]->get_cell_type_id() != 0 || L[i]->get_cell_type_id() != 0) { snprintf(buf, sizeof buf, "coupling-between-non-epithelial-cells: index %zu -> %u (phase %s)", i, ci, phase); return buf; }
+        // ... and the node it was coupled to: between the contact phase and the time integration no node moves, so the partner still lies within the adhesion cut-off
+        { const double d = (L[ci]->node_lst_[ni].pos_ - n.pos_).norm(), cut = s->sim_parameters_.contact_cutoff_adhesion_; if (d > cut * (1 + 1e-9)) { snprintf(buf, sizeof buf, "coupling-designates-a-node-that-is-not-the-partner: node %u of cell index %zu -> node %u of cell index %u lies %.6g away, adhesion cut-off %.6g (phase %s)", n.node_id_, i, ni, ci, d, cut, phase); return buf; } } }
 #elif CONTACT_MODEL_INDEX == 2
     bool couplings_live = !strcmp(phase, "polarize") || !strcmp(phase, "forces") || !strcmp(phase, "integrate");
     if (couplings_live) for (size_t i = 0; i < L.size(); i++) for (const node& n : L[i]->node_lst_) if (n.is_used_) for (auto& kv : n.coupled_nodes_map_) { T.couplings_seen++; unsigned ci = kv.first, ni = kv.second.first;
@@ -60,8 +62,10 @@ static RunOut run_history(const Setup& su, const History& h, long* phases = null
     RunOut out; std::vector<sw::CellSpec> cs;
     sc::Mesh ico = sc::icosphere(1);
     for (int i = 0; i < su.ncells; i++) { auto ty = sc::make_cell_type(0, (su.kind == 1 && i == 1) ? 2 : (su.kind == 3 && i == 1) ? 1 : 3); if (su.kind == 2 && i == su.ncells - 1) ty = sc::make_cell_type(1, 1);
-        ty->surface_coupling_max_curvature_ = 1e30; cs.push_back({sc::translated(ico, 2.05 * i, 0, 0), ty}); }
-    global_simulation_parameters p = sc::make_sim_params(sw::scratch_root() + "/c08", 0.3); p.time_step_ = 1e-3; p.sampling_period_ = 1e9; p.simulation_duration_ = 1e9; p.contact_cutoff_adhesion_ = 0.1; p.contact_cutoff_repulsion_ = 0.1;
+        ty->surface_coupling_max_curvature_ = 1e30; sc::Mesh mi = sc::translated(ico, 2.05 * i, 0, 0);
+        if (su.kind == 4 && i == 0) { /* one edge of the first cell far below the minimum edge length: the refiner collapses it in the first iteration and the cell carries free node slots until its next compaction */ unsigned a = mi.tri[0], b = mi.tri[1]; for (int k = 0; k < 3; k++) mi.pos[3*a+k] = mi.pos[3*b+k] + 0.25 * (mi.pos[3*a+k] - mi.pos[3*b+k]); }
+        cs.push_back({mi, ty}); }
+    global_simulation_parameters p = sc::make_sim_params(sw::scratch_root() + "/c08", 0.3); p.time_step_ = 1e-3; p.sampling_period_ = su.kind == 4 ? 1e-3 /* a mesh file (and the compaction that goes with it) in every iteration */ : 1e9; p.simulation_duration_ = 1e9; p.contact_cutoff_adhesion_ = 0.1; p.contact_cutoff_repulsion_ = 0.1;
     Tracker T; g_tr = &T;
     try {
         sw::incoming_ids() = su.incoming; sw::World W(cs, p); sw::incoming_ids() = 0;
@@ -114,7 +118,7 @@ static void enumerate(Result& R, const Setup& su, int depth, int max_cells_with_
 
 static void explore(Result& R) {
     const bool th = R.args.thorough();
-    std::vector<Setup> setups = {{2, 0}, {3, 0}, {3, 1}, {3, 2}, {3, 3}, {2, 0, 1}, {3, 0, 1}, {3, 0, 2}}; if (th) { setups.push_back({4, 0}); setups.push_back({3, 2, 2}); setups.push_back({3, 1, 1}); }
+    std::vector<Setup> setups = {{2, 0}, {3, 0}, {3, 1}, {3, 2}, {3, 3}, {2, 0, 1}, {3, 0, 1}, {3, 0, 2}, {2, 4}, {3, 4}}; if (th) { setups.push_back({4, 0}); setups.push_back({3, 2, 2}); setups.push_back({3, 1, 1}); }
     for (auto& su : setups) enumerate(R, su, (th && su.ncells < 4) ? 3 : 2, th ? 4 : 3);   // thorough: depth 3 for 2-3 cells, depth 2 (81 + 81*81 histories) for 4 cells
     sw::cleanup_scratch();
     R["evaluations"] = R["transitions"]; R["distinct_nontrivial"] = R["states"]; /* replaced by the measured union of final-population keys in the driver */ R["traces_validated_against_impl"] = R["transitions"];
